@@ -585,7 +585,7 @@ static carquet_status_t load_dictionary_page_mmap(
     parquet_page_header_t page_header;
     size_t header_size;
     carquet_status_t status = parquet_parse_page_header(
-        header_ptr, avail < 256 ? avail : 256, &page_header, &header_size, error);
+        header_ptr, avail, &page_header, &header_size, error);
     if (status != CARQUET_OK) {
         return status;
     }
@@ -691,6 +691,51 @@ static size_t file_read_at(FILE* file, long offset, void* buffer, size_t size,
     return bytes_read;
 }
 
+/**
+ * Read and parse the page header at offset (fread path).
+ *
+ * Page headers have no length limit (statistics carry arbitrary min/max
+ * values): start with a small window and widen it while the parser runs out
+ * of bytes and the file has more.
+ */
+#define PAGE_HEADER_WINDOW_MAX ((size_t)16 * 1024 * 1024)
+
+static carquet_status_t read_page_header_fread(
+    FILE* file,
+    long offset,
+    parquet_page_header_t* page_header,
+    size_t* header_size,
+    carquet_error_t* error) {
+
+    size_t window = 256;
+    for (;;) {
+        uint8_t* header_buf = malloc(window);
+        if (!header_buf) {
+            CARQUET_SET_ERROR(error, CARQUET_ERROR_OUT_OF_MEMORY, "Failed to allocate page header buffer");
+            return CARQUET_ERROR_OUT_OF_MEMORY;
+        }
+        bool seek_failed = false;
+        size_t header_read = file_read_at(file, offset, header_buf, window, &seek_failed);
+        if (seek_failed) {
+            free(header_buf);
+            CARQUET_SET_ERROR(error, CARQUET_ERROR_FILE_SEEK, "Failed to seek to page header");
+            return CARQUET_ERROR_FILE_SEEK;
+        }
+        if (header_read < 8) {
+            free(header_buf);
+            CARQUET_SET_ERROR(error, CARQUET_ERROR_FILE_READ, "Failed to read page header");
+            return CARQUET_ERROR_FILE_READ;
+        }
+        carquet_status_t status = parquet_parse_page_header(
+            header_buf, header_read, page_header, header_size, error);
+        free(header_buf);
+        if (status == CARQUET_OK || header_read < window || window >= PAGE_HEADER_WINDOW_MAX) {
+            return status;
+        }
+        window *= 4;
+    }
+}
+
 /* ============================================================================
  * Helper: Load dictionary page (fread path)
  * ============================================================================
@@ -706,23 +751,11 @@ static carquet_status_t load_dictionary_page_fread(
     const parquet_column_metadata_t* col_meta = reader->col_meta;
 
     /* Seek to dictionary page and read page header */
-    uint8_t header_buf[256];
     bool seek_failed = false;
-    size_t header_read = file_read_at(file, (long)dict_offset,
-                                      header_buf, sizeof(header_buf), &seek_failed);
-    if (seek_failed) {
-        CARQUET_SET_ERROR(error, CARQUET_ERROR_FILE_SEEK, "Failed to seek to dictionary");
-        return CARQUET_ERROR_FILE_SEEK;
-    }
-    if (header_read < 8) {
-        CARQUET_SET_ERROR(error, CARQUET_ERROR_FILE_READ, "Failed to read dictionary header");
-        return CARQUET_ERROR_FILE_READ;
-    }
-
     parquet_page_header_t page_header;
     size_t header_size;
-    carquet_status_t status = parquet_parse_page_header(
-        header_buf, header_read, &page_header, &header_size, error);
+    carquet_status_t status = read_page_header_fread(
+        file, (long)dict_offset, &page_header, &header_size, error);
     if (status != CARQUET_OK) {
         return status;
     }
@@ -881,7 +914,7 @@ static carquet_status_t load_next_page_mmap(
     parquet_page_header_t page_header;
     size_t header_size;
     carquet_status_t status = parquet_parse_page_header(
-        header_ptr, avail < 256 ? avail : 256, &page_header, &header_size, error);
+        header_ptr, avail, &page_header, &header_size, error);
     if (status != CARQUET_OK) {
         return status;
     }
@@ -1120,23 +1153,11 @@ static carquet_status_t load_next_page_fread(
 
     /* Seek to data page and read page header */
     int64_t data_offset = reader->data_start_offset;
-    uint8_t header_buf[256];
     bool seek_failed = false;
-    size_t header_read = file_read_at(file, (long)(data_offset + reader->current_page),
-                                      header_buf, sizeof(header_buf), &seek_failed);
-    if (seek_failed) {
-        CARQUET_SET_ERROR(error, CARQUET_ERROR_FILE_SEEK, "Failed to seek to data page");
-        return CARQUET_ERROR_FILE_SEEK;
-    }
-    if (header_read < 8) {
-        CARQUET_SET_ERROR(error, CARQUET_ERROR_FILE_READ, "Failed to read page header");
-        return CARQUET_ERROR_FILE_READ;
-    }
-
     parquet_page_header_t page_header;
     size_t header_size;
-    carquet_status_t status = parquet_parse_page_header(
-        header_buf, header_read, &page_header, &header_size, error);
+    carquet_status_t status = read_page_header_fread(
+        file, (long)(data_offset + reader->current_page), &page_header, &header_size, error);
     if (status != CARQUET_OK) {
         return status;
     }
